@@ -47,7 +47,7 @@ PLAN = {
              title="terminate / interrupt"),
  "C12": dict(machines=["hier2", "policy1", "policy2", "policy3", "compl"], profile=THROW, mc=MC_THROW, invariants=["P_C12"],
              title="exceptions"),
- "C13": dict(configs=ALL + ["back_circ"], machines=["flat", "ortho", "hier2", "hier3", "compl", "block", "pseudo"], profile=dict(MIXED, throws=0.1), mc=MC_PLAIN, invariants=[],
+ "C13": dict(configs=ALL + ["back_circ"], machines=["flat", "ortho", "hier2", "hier3", "compl", "block", "pseudo"], profile=dict(MIXED, throws=0.1), nexec=(120, 900), mc=MC_PLAIN, invariants=[],
              title="back-end / policy / strategy equivalence"),
  "C14": dict(machines=["fe_flat", "fe_hier2", "fe_guards"], profile=dict(PLAIN, subs=0.1), mc=MC_PLAIN, invariants=["P_C01", "P_C02"],
              frontends={"functor": ALL, "basic": ALL, "puml": ["back", "back11", "mp11", "mp11_fct"]},
@@ -85,7 +85,7 @@ RAND = {
  "C06": ((27, 49), (30, 3, 12, 43, 44, 45, "x29", "x40")),
  "C07": ((7, 28, "x34"), (9, 18, 46, 47, 48, 50, "x20")),
  "C08": (("x73",), (9, 46, 49, "x45")),
- "C13": ((3, 8, 23, "x12"), (11, 12, 27, 46, 49, 51, 53, 54, 55, 56, 57, 58, "x5", "x27", "x39")),
+ "C13": ((3, 8, 23, "x12"), (11, 12, 27, 46, 49, 51, "x5", "x27")),
  "C18": (("x12", "x36"), ("x5", "x20", "x27", "x38", "x39")),
 }
 def rand_seeds(prop, tier):
